@@ -8,8 +8,13 @@
 //   V <name> <digest-or-mac hex>             published test vector (expected value lives in sha_ref.py only)
 //   A <class> <key hex> <msg hex> <mac hex>  Sha256::hmac with the result buffer overlapping an input buffer (key / msg = the inputs as they were before the call)
 //   G <class> <msg hex> <digest hex>         Sha256::hash with the result buffer inside the data buffer
+//   Q <case> <how> <s> <len> <digest hex>    digest of the huge message big(s)[0..len), byte i = blk(s)[i mod 2^20] (blk(s) = 2^20 bytes from splitmix64, see hugeBlock);
+//                                            how = chunked (many update() calls of varied sizes) | one-shot (Sha256::hash on one contiguous mapping)
+//   K <case> <s> <klen> <len> <mac hex>      Sha256::hmac with key = blk(s ^ 0x5bd1e995)[0..klen) and message = big(s)[0..len) (one contiguous mapping)
 // modes: chunk-q / chunk-t (length 0..300 x 3 contents x all 2-way splits x sampled / all 3-way splits x hasher states), rand, big, hmac, hmac-rand, vectors,
 //        alias (result buffer == / overlapping the key, message or data buffer; finalize() into the buffer of the last update()),
+//        huge (plain -O2 build: messages whose BIT length needs more than 32 bits - around 2^29, 2^30 bytes, thorough also 2^31, 2^32, 2^33 bytes - fed in varied
+//        pieces from a 2 MiB window or in one call from a mirrored mapping of one 1 MiB block, so that no case holds more than ~3 MiB of memory),
 //        mt / mt-tsan (2..8 threads, each with hasher objects of its own and the static helpers, hashing at the same time; results compared with the
 //        digests / MACs of the same inputs computed - and recorded as H/P/M/N lines - before the threads were started)
 #include "vh.hpp"
@@ -17,6 +22,8 @@
 #include <dlfcn.h>
 #include <pthread.h>
 #include <errno.h>
+#include <sys/mman.h>
+#include <sys/syscall.h>
 
 using namespace vh;
 
@@ -270,6 +277,100 @@ static void bigMessages() {
     sample("%.200s", hist.c());
     endCase(mix(L, s), true);
   }
+}
+
+// ------------------------------------------------------------------------------------------------ huge messages (the 64-bit length field beyond 32 bits)
+// The padding ends with the message length in BITS as a 64-bit big-endian number; its upper word is non-zero only from 2^29 bytes on, so nothing shorter can
+// show whether the whole 64-bit count reaches the padding (and whether update() copes with a size that does not fit 32 bits). Content: one pseudo-random block of
+// 2^20 bytes (splitmix64 stream seeded by s) repeated. Nothing is compared online: every digest / MAC is recorded and recomputed by hashlib / hmac offline.
+// One case per process (the job has as many shards as cases); chunked cases need a 2 MiB window, the one-call cases map the same 1 MiB memory file again and again
+// into one contiguous address range (read-only), so hash() / hmac() see one buffer of len bytes that costs 1 MiB of memory.
+static const size_t HB = (size_t)1 << 20;
+static void hugeBlock(u64 s, u8* out) {
+  u64 x = s * 0x9e3779b97f4a7c15ULL + 0x632be59bd9b4e019ULL;
+  for (size_t i = 0; i < HB; i += 8) { u64 z = Rng::splitmix(x); for (int b = 0; b < 8; ++b) out[i + b] = (u8)(z >> (8 * b)); }
+}
+struct Mirror {   // [p, p+len) reads as blk repeated
+  u8* p; size_t span; int fd;
+  Mirror(const u8* blk, u64 len) : p(0), span(0), fd(-1) {
+    fd = (int)syscall(SYS_memfd_create, "h_sha_huge", 0u);
+    if (fd < 0) { char path[512]; snprintf(path, sizeof path, "%s/h_sha.huge.%d.tmp", opts.out, (int)getpid()); fd = open(path, O_RDWR | O_CREAT | O_TRUNC, 0600); if (fd >= 0) unlink(path); }
+    if (fd < 0) harnessBug("huge: no memory file (%s)", strerror(errno));
+    for (size_t o = 0; o < HB; ) { ssize_t k = write(fd, blk + o, HB - o); if (k <= 0) harnessBug("huge: write to the memory file failed (%s)", strerror(errno)); o += (size_t)k; }
+    span = (size_t)((len + HB - 1) / HB) * HB; if (!span) span = HB;
+    void* base = mmap(0, span, PROT_NONE, MAP_PRIVATE | MAP_ANONYMOUS | MAP_NORESERVE, -1, 0);
+    if (base == MAP_FAILED) harnessBug("huge: cannot reserve %lu bytes of address space (%s)", (unsigned long)span, strerror(errno));
+    p = (u8*)base;
+    for (size_t o = 0; o < span; o += HB) if (mmap(p + o, HB, PROT_READ, MAP_SHARED | MAP_FIXED, fd, 0) == MAP_FAILED) harnessBug("huge: mapping %lu of %lu failed (%s)", (unsigned long)(o / HB), (unsigned long)(span / HB), strerror(errno));
+  }
+  ~Mirror() { if (p) munmap(p, span); if (fd >= 0) close(fd); }
+private:
+  Mirror(const Mirror&); Mirror& operator=(const Mirror&);
+};
+enum { HG_CHUNKED = 0, HG_ONESHOT = 1, HG_HMAC = 2 };
+struct HugeCase { int how; u64 base; long spread; };   // length = base + seeded [0, spread]; for HG_HMAC the length of the message (the inner hash runs over 64 bytes more)
+static const HugeCase hugeCases[] = {
+  // quick tier: the first 6
+  { HG_CHUNKED, (1ull << 29) + 1, (1 << 20) + 64 },     // just above the first length whose bit count needs 33 bits
+  { HG_CHUNKED, (1ull << 29), 0 },                      // exactly 2^32 bits
+  { HG_CHUNKED, (1ull << 29) - 1, 0 },                  // the longest message whose bit count fits 32 bits
+  { HG_ONESHOT, (1ull << 29), 1 << 20 },
+  { HG_HMAC, (1ull << 29) - 64, 70000 },                // inner hash over 64 + len >= 2^29 bytes (the message itself may be shorter than 2^29)
+  { HG_CHUNKED, (1ull << 30), 1 << 20 },                // bit 30 of the byte count
+  // thorough tier
+  { HG_CHUNKED, (1ull << 31), 1 << 20 },                // bit 31 of the byte count
+  { HG_ONESHOT, (1ull << 31), 1 << 20 },                // one update() whose size has bit 31 set
+  { HG_CHUNKED, (1ull << 32) - 1, 0 },                  // the longest message whose BYTE count fits 32 bits
+  { HG_CHUNKED, (1ull << 32), 0 },
+  { HG_CHUNKED, (1ull << 32) + 1, (1 << 20) + 64 },
+  { HG_ONESHOT, (1ull << 32), 1 << 20 },                // one update() whose size does not fit 32 bits
+  { HG_HMAC, (1ull << 32) - 64, 70000 },
+  { HG_CHUNKED, (1ull << 33), 1 << 20 },
+};
+static void hugeClass(u64 hashed, char* out, size_t n) {   // by the most significant bit of the bit length of what one hasher consumed
+  int msb = 63; u64 bits = hashed << 3; while (msb > 0 && !((bits >> msb) & 1)) --msb;
+  if (msb < 32) snprintf(out, n, "bits<2^32"); else snprintf(out, n, "bits>=2^%d", msb);
+}
+static void hugeMessages() {
+  const long total = (long)(sizeof hugeCases / sizeof *hugeCases); long lo = opts.start, hi = opts.cases < 0 ? total : opts.start + opts.cases; if (hi > total) hi = total;
+  for (long idx = lo; idx < hi; ++idx) {
+    if (!mine(idx)) continue;
+    beginCase(idx);
+    Rng r(opts.seed, 1709, (u64)idx); const HugeCase& hc = hugeCases[idx]; u64 s = r.below(1u << 30), L = hc.base + (u64)r.range(0, hc.spread);
+    Exact win(2 * HB); hugeBlock(s, win.p); memcpy(win.p + HB, win.p, HB);
+    Dig d0; char cls[32]; hugeClass(hc.how == HG_HMAC ? L + 64 : L, cls, sizeof cls);
+    if (hc.how == HG_CHUNKED) {
+      hist.addf("# huge message: block seed %llu, length %llu (%s), fed in pieces of varied sizes (1 byte .. 2 MiB, now and then 0..70 bytes)\n", (unsigned long long)s, (unsigned long long)L, cls);
+      Hasher hh; u64 pos = 0; long n = 0; size_t maxc = 0;
+      setctx("Sha256.update/huge-message");
+      while (pos < L) {
+        size_t off = (size_t)(pos & (HB - 1)); u64 c = (u64)r.range(1, (long)(2 * HB - off)); if (r.chance(1, 16)) c = (u64)r.range(0, 70);
+        if (c > L - pos) c = L - pos; hh.h->update(win.p + off, (size_t)c); pos += c; ++n; if (c > maxc) maxc = (size_t)c;
+      }
+      setctx("Sha256.finalize/huge-message"); hh.h->finalize(d0.ref()); cnt("digests"); cnt("updates", n); cnt("huge_chunked"); cnt("huge_updates", n); statMax("huge_max_piece", (long)maxc);
+      hist.addf("%ld update() calls, finalize\n", n);
+      { Text t; t.addf("Q %ld chunked %llu %llu ", idx, (unsigned long long)s, (unsigned long long)L); addHex(t, d0.d, 32); t.add("\n"); rec("%s", t.c()); }
+    } else {
+      Mirror m(win.p, L);
+      if (memcmp(m.p, win.p, HB) || memcmp(m.p + m.span - HB, win.p, HB)) harnessBug("huge: the mirrored mapping does not read as the block");
+      if (hc.how == HG_ONESHOT) {
+        hist.addf("# huge message: block seed %llu, length %llu (%s), Sha256::hash() on one contiguous buffer\n", (unsigned long long)s, (unsigned long long)L, cls);
+        setctx("Sha256.hash/huge-message"); Sha256::hash(m.p, (size_t)L, d0.ref()); cnt("digests"); cnt("updates"); cnt("huge_one_shot");
+        { Text t; t.addf("Q %ld one-shot %llu %llu ", idx, (unsigned long long)s, (unsigned long long)L); addHex(t, d0.d, 32); t.add("\n"); rec("%s", t.c()); }
+      } else {
+        size_t kl = r.chance(1, 4) ? (size_t)r.range(65, 200) : (size_t)r.below(65); Exact key(HB); hugeBlock(s ^ 0x5bd1e995, key.p); Exact k; k.set(key.p, kl);
+        hist.addf("# huge hmac: block seed %llu, key length %lu, message length %llu (inner hash over %llu bytes: %s), one contiguous buffer\n", (unsigned long long)s, (unsigned long)kl, (unsigned long long)L, (unsigned long long)L + 64, cls);
+        setctx("Sha256.hmac/huge-message"); Sha256::hmac(k.p, kl, m.p, (size_t)L, d0.ref()); cnt("hmacs"); cnt("huge_hmacs");
+        setItem("hmac_key_classes", kl == 0 ? "key=0" : kl < 64 ? "key<block" : kl == 64 ? "key=block" : "key>block");
+        { Text t; t.addf("K %ld %llu %lu %llu ", idx, (unsigned long long)s, (unsigned long)kl, (unsigned long long)L); addHex(t, d0.d, 32); t.add("\n"); rec("%s", t.c()); }
+      }
+    }
+    cnt("huge_messages"); cnt("huge_results_recorded"); cnt("huge_mib_hashed", (long)(L >> 20)); setItem("huge_length_classes", cls); statMax("max_message_length", (long)L);
+    { u64 hashed = hc.how == HG_HMAC ? L + 64 : L;   /* what one hasher consumed */ if (hashed >> 29) cnt("huge_messages_of_2p29_bytes_or_more"); if (hashed >> 32) cnt("huge_messages_of_2p32_bytes_or_more"); }
+    sample("%.300s", hist.c());
+    endCase(mix(L, s), true);
+  }
+  statMax("huge_case_space", total);
 }
 
 // ------------------------------------------------------------------------------------------------ HMAC
@@ -700,6 +801,7 @@ int main(int argc, char** argv) {
   else if (!strcmp(m, "chunk-t")) chunkSweep(true);
   else if (!strcmp(m, "rand")) randomMessages();
   else if (!strcmp(m, "big")) bigMessages();
+  else if (!strcmp(m, "huge")) hugeMessages();
   else if (!strcmp(m, "hmac")) hmacSweep();
   else if (!strcmp(m, "hmac-rand")) hmacRandom();
   else if (!strcmp(m, "vectors")) vectors();
